@@ -339,6 +339,10 @@ static void one_case(Ctx &c, Shape const &s, int gc, int f, int pat)
   if (!is_count && with_samples && !fmt_is_text(f)) data_rel = 4e-16;  // sum/count*count
   // text headers carry 15 significant digits; the parameter block of the binary restart form is text as well
   double bound_rel = (f == F_RAW_BIN ? 0.0 : 1e-14);
+  // the parameter block of the restart forms (text and binary alike) is text with 14 significant digits, the
+  // documented precision of Colvars text state: boundaries and widths are compared at 1e-13 relative there
+  // (sizes, periodic flags and data stay exact)
+  if (f == F_RST_TEXT_SAME || f == F_RST_TEXT_OTHER || f == F_RST_BIN_SAME || f == F_RST_BIN_OTHER) bound_rel = 1e-13;
 
   std::string const tag = c.scratch + "/io_s" + std::to_string(c.shard);
   std::string written;  // the text that went to the file/stream (for the replay record)
